@@ -130,7 +130,24 @@ def t_parseval(D, N, C, seed):
     return bool(ok), f"D={D} N={N}: sum of power spectrum {pw.sum(axis=-1)} vs half mean square inside the Nyquist sphere {exp}"
 
 
-TESTS = dict(single_mode=t_single_mode, parseval=t_parseval)
+def t_homogeneous(D, N, C, seed, a):
+    """the spectrum of a u is |a| (amplitude) resp. a^2 (power) times the spectrum of u, for tiny and huge a alike (no absolute threshold),
+    for both binning modes"""
+    ex, jnp = _ex()
+    u = np.random.default_rng(seed).standard_normal((C,) + (N,) * D)
+    for power in (True, False):
+        for rb in (("sum", "average") if D >= 2 else ("sum",)):
+            kw = dict(power=power) if D == 1 else dict(power=power, radial_binning=rb)
+            s1 = np.asarray(ex.get_spectrum(jnp.asarray(u), **kw))
+            sa = np.asarray(ex.get_spectrum(jnp.asarray(a * u), **kw))
+            fac = a * a if power else abs(a)
+            if s1.shape != sa.shape or not np.allclose(sa, fac * s1, rtol=1e-9, atol=0.0):
+                bad = int(np.argmax(np.abs(sa - fac * s1) / (np.abs(fac * s1) + 1e-300)))
+                return False, f"get_spectrum({a} u, power={power}, binning={rb}) != {fac} get_spectrum(u): entry {bad}: {sa.reshape(-1)[bad]} vs {fac * s1.reshape(-1)[bad]}"
+    return True, ""
+
+
+TESTS = dict(single_mode=t_single_mode, parseval=t_parseval, homogeneous=t_homogeneous)
 
 
 def witness(ctx):
@@ -150,3 +167,6 @@ def witness(ctx):
         for k in ks:
             ctx.check("single_mode", dict(D=D, N=N, k=list(k), phase=0.4), nontrivial=any(k))
         ctx.check("parseval", dict(D=D, N=N, C=2, seed=ctx.seed))
+        if N <= 9 or deep:
+            for a in ((1e-7, 1e4) if not deep else (1e-7, 1e-12, 1e4, -3.0)):
+                ctx.check("homogeneous", dict(D=D, N=N, C=2, seed=ctx.seed, a=a))
